@@ -2198,6 +2198,27 @@ func (s *swamp) SaveFunction(t treasure.Treasure, guardID guard.ID) treasure.Tre
 			}
 		}
 
+		// The creation-time and update-time indexes, once built, are sorted by the
+		// value they held when the treasure was added. An update that moves one of
+		// these times (or gives the treasure one for the first time) must move the
+		// treasure inside the index too, exactly like the expiration branch above.
+		if !t.IsContentTypeChanged() {
+			if t.IsCreatedAtChanged() {
+				s.deleteTreasureIfBeaconInitialized(s.creationTimeBeaconASC, t.GetKey())
+				s.deleteTreasureIfBeaconInitialized(s.creationTimeBeaconDESC, t.GetKey())
+				if t.GetCreatedAt() != 0 {
+					s.addToCreationTimeBeacon(t)
+				}
+			}
+			if t.IsModifiedAtChanged() {
+				s.deleteTreasureIfBeaconInitialized(s.updateTimeBeaconASC, t.GetKey())
+				s.deleteTreasureIfBeaconInitialized(s.updateTimeBeaconDESC, t.GetKey())
+				if t.GetModifiedAt() != 0 {
+					s.addToUpdateTimeBeacon(t)
+				}
+			}
+		}
+
 		// the treasure is modified, we need to add it to the swamp and write it to the chroniclerInterface
 		s.treasuresWaitingForWriter.Add(t)
 
